@@ -549,6 +549,18 @@ func (fr *Frame) defaultCall(st *State, call ssa.CallInstruction, key string, si
 		} else if fn != nil && readOnlyExternal(fn) {
 			hv, ha = nil, nil
 		}
+		if fn != nil && !isModuleFunc(fn) && vc.frameActive() {
+			if p := pkgOfFunc(fn); p != nil && (p.Path() == "slices" || p.Path() == "sort") {
+				// an in-place mutator of the standard library writes the elements of its slice argument
+				for i, a := range hv {
+					if i < len(ha) && vc.sortOf(a.Type()) == "Slice" {
+						vc.oblig(fr, st, "frame", "", "elements-of:"+describe(a, 0)+" (in-place "+shortName(key)+")", vc.inFrame(vc.sptr(ha[i])), call.Pos())
+					} else if bi, ok := vc.boxes[ha[i]]; ok && vc.sortOf(bi.t) == "Slice" {
+						vc.oblig(fr, st, "frame", "", "elements-of:"+describe(a, 0)+" (in-place "+shortName(key)+")", vc.inFrame(vc.sptr(bi.inner)), call.Pos())
+					}
+				}
+			}
+		}
 		fr.havocArgs(st, hv, ha, false, clkBefore)
 	}
 	var res []Term
@@ -1361,6 +1373,11 @@ func (fr *Frame) appendOp(st *State, call ssa.CallInstruction, argVals []ssa.Val
 		return vc.sc.Fresh(fr.prefix+"append", "Slice")
 	}
 	et := stt.Elem()
+	if vc.frameActive() {
+		// append writes into the backing array of its first argument when there is spare capacity
+		g := Or(Eq(sx("s-len", s), sx("s-cap", s)), vc.inFrame(vc.sptr(s)))
+		vc.oblig(fr, st, "frame", "", "append-in-place:"+describe(argVals[0], 0), g, call.Pos())
+	}
 	nb := vc.alloc(st, fr.prefix+"appbase")
 	t := args[1]
 	var tlen Term
